@@ -30,6 +30,8 @@ CONSTANTS DBs, Colls,       \* database / collection parts of specifications, "*
           Vias,             \* how db "default" may be expressed (other databases always "dbc"): "ci" = collection_infos, "dbc" = db_collections
           MapKinds,         \* subset of {"none", "own", "owndb", "foreign"}
           URs,              \* subset of BOOLEAN: user-role flag of a create request
+          NoAutos,          \* subset of BOOLEAN: disable_auto_start flag of a create request (a task that is not started
+                            \* owns its collections like any other: the flag has no effect on the book-keeping)
           Faults,           \* create: 0 = none, k = the k-th store call fails, 99 = the entity factory fails
           DelFaults,        \* delete: 0 = none, k = the k-th store call fails
           MaxOps,           \* history bound
@@ -135,11 +137,11 @@ Restart ==
 
 Step ==
     /\ Len(hist) < MaxOps
-    /\ \/ \E t \in Targets, n \in Names, mk \in MapKinds, ur \in URs, f \in Faults :
+    /\ \/ \E t \in Targets, n \in Names, mk \in MapKinds, ur \in URs, na \in NoAutos, f \in Faults :
          \E v \in (IF n.db = "default" THEN Vias ELSE {"dbc"}) :
             /\ Create(t, n, mk, ur, f)
             /\ hist' = Append(hist, [op |-> "create", db |-> n.db, coll |-> n.coll, via |-> v, map |-> mk,
-                                     ur |-> ur, fault |-> f, tgt |-> t])
+                                     ur |-> ur, noauto |-> na, fault |-> f, tgt |-> t])
        \/ \E i \in Ids, f \in DelFaults, w \in 1..DelW :
             /\ Delete(i, f)
             /\ hist' = Append(hist, [op |-> "delete", task |-> i, fault |-> f, w |-> w])
